@@ -218,7 +218,12 @@ class UpgradedSignature(_util.funcsigs.Signature):
         try:
             upgraded_return_annotation = kwargs.pop("upgraded_return_annotation")
         except KeyError:
-            upgraded_return_annotation = self.upgraded_return_annotation
+            if 'return_annotation' in kwargs:
+                # a new annotation: what the old one denoted no longer applies
+                upgraded_return_annotation = UpgradedAnnotation.preevaluated(
+                    kwargs['return_annotation'])
+            else:
+                upgraded_return_annotation = self.upgraded_return_annotation
         ret = super().replace(*args, parameters=parameters, **kwargs)
         assert isinstance(ret, type(self))
         ret.sources = sources
@@ -302,7 +307,13 @@ class UpgradedParameter(_util.funcsigs.Parameter):
         function = self._function if function is _util.UNSET else function
         sources = self.sources if sources is _util.UNSET else sources
         source_depths = self.source_depths if source_depths is _util.UNSET else source_depths
-        upgraded_annotation = self.upgraded_annotation if upgraded_annotation is _util.UNSET else upgraded_annotation
+        if upgraded_annotation is _util.UNSET:
+            if 'annotation' in kwargs:
+                # a new annotation: what the old one denoted no longer applies
+                upgraded_annotation = UpgradedAnnotation.preevaluated(
+                    kwargs['annotation'])
+            else:
+                upgraded_annotation = self.upgraded_annotation
 
         ret = super().replace(**kwargs)
         assert isinstance(ret, type(self))
